@@ -424,6 +424,163 @@ theorem firstErr_zero (l : List Nat) (h : ∀ c ∈ l, c = 0) : firstErr l = 0 :
     exact ih (fun d hd => h d (List.mem_cons_of_mem _ hd))
 
 -- ---------------------------------------------------------------------------------------------
+-- x/bet: the uid → id lookup of the genesis code and the per-bet loops of InitGenesis
+
+theorem idOf_foldl_none (m : List (Nat × Nat)) (uid acc : Nat) (h : ∀ x ∈ m, x.1 ≠ uid) :
+    m.foldl (fun acc x => if x.1 == uid then x.2 else acc) acc = acc := by
+  induction m generalizing acc with
+  | nil => rfl
+  | cons y ys ih =>
+    simp only [List.foldl_cons]
+    have : (y.1 == uid) = false := by simpa using h y (List.mem_cons_self ..)
+    simp only [this, Bool.false_eq_true, ↓reduceIte]
+    exact ih acc (fun x hx => h x (List.mem_cons_of_mem _ hx))
+
+theorem idOf_foldl_mem (m : List (Nat × Nat)) (hs : Sorted (fun (x : Nat × Nat) => [x.1]) m) (u i acc : Nat) (h : (u, i) ∈ m) :
+    m.foldl (fun acc x => if x.1 == u then x.2 else acc) acc = i := by
+  induction m generalizing acc with
+  | nil => cases h
+  | cons y ys ih =>
+    unfold Sorted at hs
+    rw [List.pairwise_cons] at hs
+    simp only [List.foldl_cons]
+    rcases List.mem_cons.mp h with e | hin
+    · subst e
+      simp only [beq_self_eq_true, ↓reduceIte]
+      apply idOf_foldl_none
+      intro x hx hxe
+      have := hs.1 x hx
+      simp only [hxe] at this
+      simp [ltL] at this
+    · have hy : (y.1 == u) = false := by
+        cases hc : y.1 == u
+        · rfl
+        · have e : y.1 = u := by simpa using hc
+          have := hs.1 (u, i) hin
+          simp [ltL, e] at this
+      simp only [hy, Bool.false_eq_true, ↓reduceIte]
+      exact ih hs.2 acc hin
+
+/-- distinct uids give pairwise different keys of the (uid, id) records -/
+theorem pairwise_of_noDup {α : Type} (f : α → Nat) (l : List α) (h : hasDup (l.map f) = false) :
+    l.Pairwise (fun a b => ([f a] == [f b]) = false) := by
+  induction l with
+  | nil => exact List.Pairwise.nil
+  | cons x xs ih =>
+    simp only [List.map_cons, hasDup, Bool.or_eq_false_iff] at h
+    rw [List.pairwise_cons]
+    refine ⟨?_, ih h.2⟩
+    intro y hy
+    cases hc : [f x] == [f y]
+    · rfl
+    · have e : f x = f y := by simpa using hc
+      have : (xs.map f).contains (f x) = true := by
+        rw [List.contains_iff_mem]
+        exact List.mem_map.mpr ⟨y, hy, e.symm⟩
+      rw [this] at h
+      cases h.1
+
+/-- the id the genesis code finds for the uid of a stored bet is the bet's id -/
+theorem idOf_export (bets : List Bet) (hd : hasDup (bets.map (·.uid)) = false) (b : Bet) (hb : b ∈ bets) :
+    idOf (setAll (fun (x : Nat × Nat) => [x.1]) (bets.map (fun b => (b.uid, b.id))) []) b.uid = b.id := by
+  unfold idOf
+  apply idOf_foldl_mem
+  · exact setAll_sortedRes _ _ _ (by simp [Sorted])
+  · rw [mem_setAll _ _ [] (by simp [Sorted])]
+    · exact Or.inl (List.mem_map.mpr ⟨b, hb, rfl⟩)
+    · have := pairwise_of_noDup (·.uid) bets hd
+      rw [List.pairwise_map]
+      exact this
+    · intro a _ c hc; cases hc
+
+theorem flatMap_ite {α β : Type} (l : List α) (c : α → Bool) (f : α → β) :
+    l.flatMap (fun a => if c a then [f a] else []) = (l.filter c).map f := by
+  induction l with
+  | nil => rfl
+  | cons x xs ih =>
+    simp only [List.flatMap_cons, List.filter_cons]
+    cases c x <;> simp [ih]
+
+def restoreId (g : BetGen) (b : Bet) : Bet := { b with id := idOf g.uid2id b.uid }
+
+def pendWrites (g : BetGen) (b : Bet) : List (Nat × Nat × Nat × Nat) :=
+  (g.pending.filter (fun p => p.1 == b.uid)).map (fun p => (b.market, idOf g.uid2id b.uid, p.1, p.2))
+
+def settWrites (g : BetGen) (b : Bet) : List (Nat × Nat × Nat × Nat) :=
+  (g.settled.filter (fun p => p.1 == b.uid)).map (fun p => (b.settleHeight, idOf g.uid2id b.uid, p.1, p.2))
+
+theorem foldl_pending_writes (l : List (Nat × Nat)) (f : Nat × Nat → Nat × Nat × Nat × Nat) (s : State) :
+    let r := l.foldl (fun (acc : State) p => { acc with pending := upsert pendKey (f p) acc.pending }) s
+    r.pending = setAll pendKey (l.map f) s.pending ∧ r.settled = s.settled ∧ r.bets = s.bets ∧ r.betCount = s.betCount ∧ r.params = s.params := by
+  induction l generalizing s with
+  | nil => simp [setAll]
+  | cons x xs ih =>
+    simp only [List.foldl_cons]
+    have := ih { s with pending := upsert pendKey (f x) s.pending }
+    simp only at this
+    obtain ⟨a, b, c, d, e⟩ := this
+    exact ⟨by rw [a]; simp [setAll], b, c, d, e⟩
+
+theorem foldl_settled_writes (l : List (Nat × Nat)) (f : Nat × Nat → Nat × Nat × Nat × Nat) (s : State) :
+    let r := l.foldl (fun (acc : State) p => { acc with settled := upsert pendKey (f p) acc.settled }) s
+    r.settled = setAll pendKey (l.map f) s.settled ∧ r.pending = s.pending ∧ r.bets = s.bets ∧ r.betCount = s.betCount ∧ r.params = s.params := by
+  induction l generalizing s with
+  | nil => simp [setAll]
+  | cons x xs ih =>
+    simp only [List.foldl_cons]
+    have := ih { s with settled := upsert pendKey (f x) s.settled }
+    simp only at this
+    obtain ⟨a, b, c, d, e⟩ := this
+    exact ⟨by rw [a]; simp [setAll], b, c, d, e⟩
+
+theorem setAll_setAll {α : Type} (key : α → List Nat) (l1 l2 store : List α) :
+    setAll key l2 (setAll key l1 store) = setAll key (l1 ++ l2) store := by
+  simp [setAll, List.foldl_append]
+
+theorem importOneBet_fields (g : BetGen) (s : State) (b : Bet) :
+    (importOneBet g s b).bets = upsert Bet.key (restoreId g b) s.bets ∧
+    (importOneBet g s b).pending = setAll pendKey (pendWrites g b) s.pending ∧
+    (importOneBet g s b).settled = setAll pendKey (settWrites g b) s.settled ∧
+    (importOneBet g s b).betCount = s.betCount ∧ (importOneBet g s b).params = s.params := by
+  unfold importOneBet
+  simp only
+  have h1 := foldl_pending_writes (g.pending.filter (fun p => p.1 == b.uid)) (fun p => (b.market, idOf g.uid2id b.uid, p.1, p.2)) s
+  simp only at h1
+  obtain ⟨a1, a2, a3, a4, a5⟩ := h1
+  have h2 := foldl_settled_writes (g.settled.filter (fun p => p.1 == b.uid)) (fun p => (b.settleHeight, idOf g.uid2id b.uid, p.1, p.2))
+    ((g.pending.filter (fun p => p.1 == b.uid)).foldl
+      (fun (acc : State) p => { acc with pending := upsert pendKey (b.market, idOf g.uid2id b.uid, p.1, p.2) acc.pending }) s)
+  simp only at h2
+  obtain ⟨b1, b2, b3, b4, b5⟩ := h2
+  refine ⟨?_, ?_, ?_, ?_, ?_⟩
+  · rw [b3, a3]; rfl
+  · rw [b2, a1]; rfl
+  · rw [b1, a2]; rfl
+  · rw [b4, a4]
+  · rw [b5, a5]
+
+theorem foldl_importOneBet (g : BetGen) (l : List Bet) (s : State) :
+    let r := l.foldl (importOneBet g) s
+    r.bets = setAll Bet.key (l.map (restoreId g)) s.bets ∧
+    r.pending = setAll pendKey (l.flatMap (pendWrites g)) s.pending ∧
+    r.settled = setAll pendKey (l.flatMap (settWrites g)) s.settled ∧
+    r.betCount = s.betCount ∧ r.params = s.params := by
+  induction l generalizing s with
+  | nil => simp [setAll]
+  | cons x xs ih =>
+    simp only [List.foldl_cons]
+    have h := ih (importOneBet g s x)
+    simp only at h
+    obtain ⟨h1, h2, h3, h4, h5⟩ := h
+    obtain ⟨e1, e2, e3, e4, e5⟩ := importOneBet_fields g s x
+    refine ⟨?_, ?_, ?_, ?_, ?_⟩
+    · rw [h1, e1]; simp [setAll]
+    · rw [h2, e2, setAll_setAll]; simp
+    · rw [h3, e3, setAll_setAll]; simp
+    · rw [h4, e4]
+    · rw [h5, e5]
+
+-- ---------------------------------------------------------------------------------------------
 -- prefix scans of the order-book store: the records of all books, each tagged with its book uid
 
 def scan {α : Type} (books : List Book) (f : Book → List α) : List (Nat × α) :=
